@@ -60,6 +60,13 @@ struct Log
   long long op_timeout   = -1;       // the caller's timeout of the current op (us), -1 = none
   int calls_in_op        = 0;        // children called so far in this op (timeout classification)
   bool slept_in_op       = false;    // a slow child has used up the short timeout
+  // per child, kept apart from the event log: ForceFlush / Shutdown calls received, exporter Shutdown calls
+  struct Cnt
+  {
+    long long f = 0, s = 0;
+    std::atomic<long long> xs{0};
+  };
+  std::vector<std::unique_ptr<Cnt>> cnt;
   void add(const std::string &s) { evs.push_back(s); }
 };
 static Log *g_log = nullptr;
@@ -197,6 +204,7 @@ struct RawProc : BaseOf<Sig>::type
   bool ForceFlush(usec timeout) noexcept override
   {
     std::string tc = tcls(timeout);
+    g_log->cnt[id]->f++;
     bool slow;
     bool r = sc.next_flush(slow);
     maybe_sleep(slow);
@@ -206,6 +214,7 @@ struct RawProc : BaseOf<Sig>::type
   bool Shutdown(usec timeout) noexcept override
   {
     std::string tc = tcls(timeout);
+    g_log->cnt[id]->s++;
     bool r         = sc.next_shutdown();
     g_log->add("c" + std::to_string(id) + ":S:" + tc + "=" + (r ? "1" : "0"));
     return r;
@@ -257,6 +266,7 @@ struct Exp : Sig::Exporter
   {
     note_late();
     st->shutdowns++;
+    g_log->cnt[st->id]->xs++;
     bool r = st->sc.next_shutdown();  // a batch child calls this from the thread that called its Shutdown
     st->last_shutdown_result.store(r ? 1 : 0);
     if (!st->threaded) g_log->add("x" + std::to_string(st->id) + ":S=" + (r ? "1" : "0"));
@@ -294,6 +304,7 @@ struct Deco : BaseOf<Sig>::type
   bool ForceFlush(usec timeout) noexcept override
   {
     std::string tc = tcls(timeout);
+    g_log->cnt[id]->f++;
     long long f0   = st->flushes.load();
     bool r         = inner->ForceFlush(timeout);
     if (batch && st->flushes.load() > f0) g_log->add("x" + std::to_string(id) + ":F=1");
@@ -304,6 +315,7 @@ struct Deco : BaseOf<Sig>::type
   bool Shutdown(usec timeout) noexcept override
   {
     std::string tc  = tcls(timeout);
+    g_log->cnt[id]->s++;
     shutdown_called = true;
     long long s0    = st->shutdowns.load();
     bool r          = inner->Shutdown(timeout);
@@ -341,6 +353,7 @@ private:
   bool OnForceFlush(usec timeout) noexcept override
   {
     std::string tc = tcls(timeout);
+    g_log->cnt[id]->f++;
     bool slow;
     bool r = sc.next_flush(slow);
     maybe_sleep(slow);
@@ -350,6 +363,7 @@ private:
   bool OnShutDown(usec timeout) noexcept override
   {
     std::string tc = tcls(timeout);
+    g_log->cnt[id]->s++;
     bool r         = sc.next_shutdown();
     g_log->add("c" + std::to_string(id) + ":S:" + tc + "=" + (r ? "1" : "0"));
     return r;
@@ -559,6 +573,7 @@ static std::string handle(const std::vector<std::string> &toks)
     if (!ok) return "bad-op";
   }
   Log log;
+  for (size_t i = 0; i < cs.size(); i++) log.cnt.emplace_back(new Log::Cnt);
   g_log = &log;
   std::unique_ptr<Subject> subj;
   if (layer == "ms") subj.reset(new SubjMS(cs));
@@ -625,6 +640,11 @@ static std::string handle(const std::vector<std::string> &toks)
     seg("end");
   }
   subj.reset();
+  std::string sum = "sum";
+  for (size_t i = 0; i < cs.size(); i++)
+    sum += " c" + std::to_string(i) + ":F" + std::to_string(log.cnt[i]->f) + ":S" + std::to_string(log.cnt[i]->s) + ":X" +
+           std::to_string(log.cnt[i]->xs.load());
+  segs.push_back(sum);
   g_log = nullptr;
   return vh::join(segs, " ; ");
 }
